@@ -1,7 +1,8 @@
 (* C20 -- property theorems only: each is closed by [exact] of a lemma proved elsewhere.
    Model: Pulse/PulseModel.v (util/PulseNode.{h,cpp}); oracles gt/pl = the virtual GetPulseTime()/Pulse(). *)
 From Coq Require Import List Arith NArith.
-From Muscle Require Import Pulse.PulseModel Pulse.PulseInv Pulse.PulseOps Pulse.PulseSweep Pulse.PulseReach Pulse.PulseMin.
+From Muscle Require Import Pulse.PulseModel Pulse.PulseInv Pulse.PulseOps Pulse.PulseSweep Pulse.PulseReach Pulse.PulseMin
+     Pulse.PulseExact Pulse.PulseRefuted.
 Import ListNotations.
 
 (* reach_inv: every state reachable by any history of create/attach/detach/clear/destroy/invalidate operations and
@@ -38,6 +39,47 @@ Theorem C20_recalc_min :
 Proof. exact recalc_min. Qed.
 Print Assumptions C20_recalc_min.
 
+(* pulse_exact: on a freshly recalculated tree, with Pulse() callbacks that do not restructure it, a pulse sweep at
+   time now calls Pulse() on exactly the attached nodes whose requested time is <= now, once each, with
+   (now, requested time); each is invalid afterwards and on its parent's needs-recalc list *)
+Theorem C20_pulse_exact :
+  forall (pl : nat -> nat -> N -> N -> list cop),
+    (forall x k now st, pl x k now st = []) ->
+    forall f s r now s',
+      (now < NEVER)%N ->
+      Good nobody (nd s) -> is_root (nd s) r = true -> settled (nd s) r ->
+      agg (nd s r) = N.min (sched (nd s r)) (first_sched_agg (nd s) r) ->
+      top_pulse pl f s r now = Some s' ->
+      Good nobody (nd s') /\
+      exists d, evs s' = d ++ evs s /\ NoDup (map ev_node d) /\
+        (forall e, In e d -> exists y k, e = EPulse y k now (sched (nd s y)) /\ desc (nd s) r y /\ (sched (nd s y) <= now)%N) /\
+        (forall y, desc (nd s) r y -> (sched (nd s y) <= now)%N -> exists k, In (EPulse y k now (sched (nd s y))) d) /\
+        (forall y, desc (nd s) r y -> (sched (nd s y) <= now)%N ->
+                   valid (nd s' y) = false /\ (parent (nd s' y) <> None -> cur (nd s' y) = LRecalc)).
+Proof. exact pulse_exact. Qed.
+Print Assumptions C20_pulse_exact.
+
+(* pulse_never_early_once (the "no loss" companion for callbacks that DO restructure the tree from inside Pulse():
+   invalidate, detach, re-parent, destroy any node): every Pulse() call of the sweep is for a node whose requested
+   time was valid and <= now when the sweep began, carries that time, no node is called twice, each called node is
+   invalid afterwards, and the invariants [Good] hold again -- so by C20_recalc_min the next recalculation reports a
+   time <= the request of every node that is still attached, in particular of a due node the sweep did not reach *)
+Theorem C20_pulse_never_early_once :
+  forall (pl : nat -> nat -> N -> N -> list cop) f s r now s',
+    Good nobody (nd s) -> top_pulse pl f s r now = Some s' ->
+    Good nobody (nd s') /\ ev_rel now s s'.
+Proof. exact pulse_never_early_once. Qed.
+Print Assumptions C20_pulse_never_early_once.
+
+(* the statement is REFUTED for GetPulseTime() callbacks that themselves invalidate (or re-attach) the node being
+   recalculated: known finding F16, same witness as corpus/C20.txt line 1 *)
+Theorem C20_reentrant_recalc_refuted :
+  exists s, run rr_gt rr_pl 50 init_state rr_ops = Some s /\
+    parent (nd s 1) = Some 0 /\ valid (nd s 1) = false /\ cur (nd s 1) = LUnsched /\
+    length (filter (is_get_of 1) (evs s)) = 1 /\ filter (is_pulse_of 1) (evs s) = [] /\ ~ K2 nobody (nd s).
+Proof. exact reentrant_recalc_refuted. Qed.
+Print Assumptions C20_reentrant_recalc_refuted.
+
 (* non-vacuity: a concrete history reaches a state with a three-level tree, and its recalculation reports 5 *)
 Definition ex_gt : nat -> nat -> N -> N -> N * list cop :=
   fun x _ _ _ => (match x with 2 => 5%N | 1 => 9%N | _ => NEVER end, []).
@@ -50,3 +92,18 @@ Example C20_nonvacuous :
             parent (nd s 2) = Some 1 /\ parent (nd s 1) = Some 0 /\ is_root (nd s) 0 = true /\
             hd_error (evs s) = Some (EMin 0 5%N).
 Proof. vm_compute. eexists. repeat split. Qed.
+
+(* non-vacuity of C20_pulse_exact's premises: the state reached above is settled with an exact root aggregate,
+   and the sweep at time 7 fires node 2 (time 5) and not node 1 (time 9) *)
+Definition ex_state : state := match run ex_gt ex_pl 50 init_state ex_ops with Some s => s | None => init_state end.
+Example C20_pulse_exact_nonvacuous :
+  (forall x k now st, ex_pl x k now st = []) /\ (7 < NEVER)%N /\
+  Good nobody (nd ex_state) /\ is_root (nd ex_state) 0 = true /\ settled (nd ex_state) 0 /\
+  agg (nd ex_state 0) = N.min (sched (nd ex_state 0)) (first_sched_agg (nd ex_state) 0) /\
+  exists s', top_pulse ex_pl 50 ex_state 0 7%N = Some s' /\ hd_error (evs s') = Some (EPulse 2 0 7%N 5%N).
+Proof.
+  split; [reflexivity|]. split; [reflexivity|]. split.
+  - apply (reach_inv ex_gt ex_pl (fun _ _ _ _ => eq_refl) 50 ex_ops). reflexivity.
+  - split; [reflexivity|]. split; [split; reflexivity|]. split; [reflexivity|].
+    vm_compute. eexists. split; reflexivity.
+Qed.
